@@ -15,7 +15,13 @@ pub enum Plan {
     /// fail operation k of the device (0 = .shp, 1 = .shx); `chunk` > 0: the
     /// devices also accept at most that many bytes per write call (k then
     /// counts operations of the chunked run)
-    Fault { dev: u8, k: u64, persistent: bool, chunk: u64 },
+    /// `kind`: 0 ErrorKind::Other, 1 Interrupted, 2 WouldBlock, 3 TimedOut; `burst` n >= 1: operations k..k+n fail
+    /// (an operation that is tried again at once fails n times in a row); `prefill`: the destinations already hold
+    /// longer stale content
+    Fault { dev: u8, k: u64, persistent: bool, chunk: u64, kind: u8, burst: u8, prefill: bool },
+    /// two one-shot faults anywhere in the history as given (no call is inserted): operation k1 of dev1 and
+    /// operation k2 of dev2, both counted on the run itself
+    Pair { dev1: u8, k1: u64, dev2: u8, k2: u64 },
     /// a finalize fails at operation k1 of dev1, is called again and fails at
     /// operation k2 of dev2, and is called a third time
     Fault2 { dev1: u8, k1: u64, dev2: u8, k2: u64 },
@@ -34,7 +40,8 @@ pub struct Case {
 impl Case {
     pub fn to_json(&self) -> Value {
         let plan = match &self.plan {
-            Plan::Fault { dev, k, persistent, chunk } => json!({"fault_on": (["shp", "shx"][*dev as usize]), "operation": k, "persistent": persistent, "chunk": chunk}),
+            Plan::Fault { dev, k, persistent, chunk, kind, burst, prefill } => json!({"fault_on": (["shp", "shx"][*dev as usize]), "operation": k, "persistent": persistent, "chunk": chunk, "kind": KINDS[*kind as usize].0, "burst": burst, "prefill": prefill}),
+            Plan::Pair { dev1, k1, dev2, k2 } => json!({"pair": [(["shp", "shx"][*dev1 as usize]), k1, (["shp", "shx"][*dev2 as usize]), k2]}),
             Plan::Fault2 { dev1, k1, dev2, k2 } => json!({"fault2": [(["shp", "shx"][*dev1 as usize]), k1, (["shp", "shx"][*dev2 as usize]), k2]}),
             Plan::Chunk { kind, arg } => json!({"chunking": (["uniform", "one-op-1-byte", "one-op-all-but-last"][*kind as usize]), "arg": arg}),
         };
@@ -43,7 +50,19 @@ impl Case {
     pub fn from_json(v: &Value) -> Option<Case> {
         let p = v.get("plan")?;
         let plan = if let Some(d) = p.get("fault_on") {
-            Plan::Fault { dev: if d.as_str()? == "shp" { 0 } else { 1 }, k: p.get("operation")?.as_u64()?, persistent: p.get("persistent")?.as_bool()?, chunk: p.get("chunk").and_then(|x| x.as_u64()).unwrap_or(0) }
+            let kn = p.get("kind").and_then(|x| x.as_str()).unwrap_or("Other");
+            Plan::Fault {
+                dev: if d.as_str()? == "shp" { 0 } else { 1 },
+                k: p.get("operation")?.as_u64()?,
+                persistent: p.get("persistent")?.as_bool()?,
+                chunk: p.get("chunk").and_then(|x| x.as_u64()).unwrap_or(0),
+                kind: KINDS.iter().position(|(n, _)| *n == kn)? as u8,
+                burst: p.get("burst").and_then(|x| x.as_u64()).unwrap_or(1) as u8,
+                prefill: p.get("prefill").and_then(|x| x.as_bool()).unwrap_or(false),
+            }
+        } else if let Some(a) = p.get("pair").and_then(|x| x.as_array()) {
+            let d = |v: &Value| if v.as_str() == Some("shp") { 0u8 } else { 1u8 };
+            Plan::Pair { dev1: d(a.first()?), k1: a.get(1)?.as_u64()?, dev2: d(a.get(2)?), k2: a.get(3)?.as_u64()? }
         } else if let Some(a) = p.get("fault2").and_then(|x| x.as_array()) {
             let d = |v: &Value| if v.as_str() == Some("shp") { 0u8 } else { 1u8 };
             Plan::Fault2 { dev1: d(a.first()?), k1: a.get(1)?.as_u64()?, dev2: d(a.get(2)?), k2: a.get(3)?.as_u64()? }
@@ -57,6 +76,43 @@ impl Case {
         };
         Some(Case { ty: Ty::from_name(v.get("ty")?.as_str()?)?, with_shx: v.get("with_shx")?.as_bool()?, ops: ops_from_name(v.get("ops")?.as_str()?)?, plan })
     }
+}
+
+pub const KINDS: [(&str, std::io::ErrorKind); 4] = [
+    ("Other", std::io::ErrorKind::Other),
+    ("Interrupted", std::io::ErrorKind::Interrupted),
+    ("WouldBlock", std::io::ErrorKind::WouldBlock),
+    ("TimedOut", std::io::ErrorKind::TimedOut),
+];
+
+fn mk_env(with_shx: bool, prefill: bool) -> WEnv {
+    let env = WEnv::new(with_shx);
+    if prefill {
+        env.shp.0.borrow_mut().data = vec![0xEE; 5000];
+        if let Some(x) = &env.shx {
+            x.0.borrow_mut().data = vec![0xEE; 3000];
+        }
+    }
+    env
+}
+
+/// calls during which an injected fault fired, and whether the call had already written bytes to either device
+fn fired_calls(env: &WEnv) -> Vec<(u32, bool)> {
+    let shp = env.shp.log();
+    let shx = env.shx.as_ref().map(|x| x.log()).unwrap_or_default();
+    let mut v: Vec<(u32, bool)> = vec![];
+    for log in [&shp, &shx] {
+        for o in log.iter() {
+            if let Op::Failed { call, .. } = o {
+                if !v.iter().any(|(c, _)| c == call) {
+                    let wrote = shp.iter().chain(shx.iter()).any(|w| matches!(w, Op::Write { call: c, .. } if c == call));
+                    v.push((*call, wrote));
+                }
+            }
+        }
+    }
+    v.sort();
+    v
 }
 
 pub struct Baseline {
@@ -73,7 +129,11 @@ pub fn baseline(pal: &Palette, with_shx: bool, ops: &[WOp]) -> Baseline {
 }
 
 pub fn baseline_chunked(pal: &Palette, with_shx: bool, ops: &[WOp], chunk: u64) -> Baseline {
-    let env = WEnv::new(with_shx);
+    baseline_full(pal, with_shx, ops, chunk, false)
+}
+
+pub fn baseline_full(pal: &Palette, with_shx: bool, ops: &[WOp], chunk: u64, prefill: bool) -> Baseline {
+    let env = mk_env(with_shx, prefill);
     if chunk > 0 {
         env.shp.set_chunking(Chunking::Uniform(chunk as usize));
         if let Some(x) = &env.shx {
@@ -103,6 +163,14 @@ pub struct Obs {
     pub retry: Option<(CallRes, Vec<CallRes>, Vec<u8>, Vec<u8>, usize)>,
     pub final_shp: Vec<u8>,
     pub final_shx: Vec<u8>,
+    /// calls during which a fault fired (call id, had the call already written bytes)
+    pub fired: Vec<(u32, bool)>,
+    /// bytes written but not flushed, on both devices, after each call of the history
+    pub unflushed_after: Vec<(u64, u64)>,
+    pub unflushed_end: (u64, u64),
+    /// two faults: the files of the undisturbed run of the history without the writes that failed before
+    /// emitting a byte (None: a failed write had already emitted bytes, or a fault landed in drop)
+    pub pair_expect: Option<(Vec<u8>, Vec<u8>)>,
 }
 
 fn chunk_env(env: &WEnv, chunk: u64) {
@@ -116,13 +184,20 @@ fn chunk_env(env: &WEnv, chunk: u64) {
 
 /// `base` must be the fault-free run under the same chunking as the plan.
 pub fn observe(pal: &Palette, case: &Case, base: &Baseline) -> Obs {
-    let env = WEnv::new(case.with_shx);
+    let prefill = matches!(&case.plan, Plan::Fault { prefill: true, .. });
+    let env = mk_env(case.with_shx, prefill);
     let mut failing_call = None;
     let dev_of = |e: &WEnv, d: u8| if d == 0 { e.shp.clone() } else { e.shx.clone().expect("fault on a missing .shx") };
     match &case.plan {
-        Plan::Fault { dev, k, persistent, chunk } => {
+        Plan::Fault { dev, k, persistent, chunk, kind, burst, .. } => {
             chunk_env(&env, *chunk);
-            dev_of(&env, *dev).fail_at(*k, if *persistent { FaultMode::Persistent } else { FaultMode::OneShot });
+            let d = dev_of(&env, *dev);
+            d.set_fault_kind(KINDS[*kind as usize].1);
+            if *persistent {
+                d.fail_at(*k, FaultMode::Persistent);
+            } else {
+                d.fail_burst(*k, (*burst).max(1) as u64);
+            }
             let log = if *dev == 0 { &base.shp_log } else { &base.shx_log };
             failing_call = log.get(*k as usize).map(|o| o.call() as usize);
         }
@@ -130,6 +205,10 @@ pub fn observe(pal: &Palette, case: &Case, base: &Baseline) -> Obs {
             let log = if *dev1 == 0 { &base.shp_log } else { &base.shx_log };
             failing_call = log.get(*k1 as usize).map(|o| o.call() as usize);
             dev_of(&env, *dev1).fail_at(*k1, FaultMode::OneShot);
+        }
+        Plan::Pair { dev1, k1, dev2, k2 } => {
+            dev_of(&env, *dev1).fail_at(*k1, FaultMode::OneShot);
+            dev_of(&env, *dev2).fail_at(*k2, FaultMode::OneShot);
         }
         Plan::Chunk { kind, arg } => {
             let c = match kind {
@@ -143,16 +222,20 @@ pub fn observe(pal: &Palette, case: &Case, base: &Baseline) -> Obs {
             }
         }
     }
-    let results = exec_writer(pal, &case.ops, Ending::Drop, &env, |_, _, _| {});
+    let mut unflushed_after = vec![];
+    let results = exec_writer(pal, &case.ops, Ending::Drop, &env, |_, _, _| {
+        unflushed_after.push((env.shp.unflushed(), env.shx.as_ref().map(|x| x.unflushed()).unwrap_or(0)));
+    });
     let fired = env.shp.faults_fired() + env.shx.as_ref().map(|x| x.faults_fired()).unwrap_or(0);
     let mut retry = None;
     let c_is_f = |c: usize| c < case.ops.len() && case.ops[c] == WOp::F;
     match (&case.plan, failing_call) {
-        (Plan::Fault { dev, k, persistent: false, chunk }, Some(c)) if c_is_f(c) => {
+        (Plan::Fault { dev, k, persistent: false, chunk, kind, burst, prefill }, Some(c)) if c_is_f(c) && *burst <= 1 => {
             // same history, the failed finalize called again right away
-            let env2 = WEnv::new(case.with_shx);
+            let env2 = mk_env(case.with_shx, *prefill);
             chunk_env(&env2, *chunk);
-            dev_of(&env2, *dev).fail_at(*k, FaultMode::OneShot);
+            dev_of(&env2, *dev).set_fault_kind(KINDS[*kind as usize].1);
+            dev_of(&env2, *dev).fail_burst(*k, (*burst).max(1) as u64);
             let mut ops2 = case.ops[..=c].to_vec();
             ops2.push(WOp::F);
             ops2.extend_from_slice(&case.ops[c + 1..]);
@@ -180,7 +263,32 @@ pub fn observe(pal: &Palette, case: &Case, base: &Baseline) -> Obs {
         }
         _ => {}
     }
-    Obs { results, failing_call, faults_fired: fired, retry, final_shp: env.shp.data(), final_shx: env.shx.as_ref().map(|x| x.data()).unwrap_or_default() }
+    let fired_in = fired_calls(&env);
+    let mut pair_expect = None;
+    if let Plan::Pair { .. } = &case.plan {
+        let n = case.ops.len();
+        // (what a failed write had already emitted is overwritten by the next record or stays behind the declared end)
+        let clean = fired_in.iter().all(|(c, _)| (*c as usize) < n);
+        // when every write of the history failed, the type and box the empty file declares are not specified
+        let some_write_ok = case.ops.iter().zip(&results).any(|(op, r)| matches!(op, WOp::W(_)) && *r == CallRes::Ok) || !case.ops.iter().any(|op| matches!(op, WOp::W(_)));
+        if clean && fired == 2 && some_write_ok {
+            let kept: Vec<WOp> = case.ops.iter().enumerate().filter(|(i, op)| !(matches!(op, WOp::W(_)) && fired_in.iter().any(|(c, _)| *c as usize == *i))).map(|(_, op)| *op).collect();
+            let b = baseline(pal, case.with_shx, &kept);
+            pair_expect = Some((b.shp, b.shx));
+        }
+    }
+    Obs {
+        pair_expect,
+        results,
+        failing_call,
+        faults_fired: fired,
+        retry,
+        final_shp: env.shp.data(),
+        final_shx: env.shx.as_ref().map(|x| x.data()).unwrap_or_default(),
+        fired: fired_in,
+        unflushed_after,
+        unflushed_end: (env.shp.unflushed(), env.shx.as_ref().map(|x| x.unflushed()).unwrap_or(0)),
+    }
 }
 
 pub fn judge(case: &Case, base: &Baseline, o: &Obs) -> Vec<(String, String)> {
@@ -195,6 +303,7 @@ pub fn judge(case: &Case, base: &Baseline, o: &Obs) -> Vec<(String, String)> {
     }
     match &case.plan {
         Plan::Fault { .. } | Plan::Fault2 { .. } => {
+            let base = base;
             let (dev, k) = match &case.plan {
                 Plan::Fault { dev, k, .. } => (dev, k),
                 Plan::Fault2 { dev1, k1, .. } => (dev1, k1),
@@ -220,20 +329,41 @@ pub fn judge(case: &Case, base: &Baseline, o: &Obs) -> Vec<(String, String)> {
                     WOp::F => "finalize",
                     _ => "write_shape",
                 };
+                let (kind, burst) = match &case.plan {
+                    Plan::Fault { kind, burst, .. } => (*kind, *burst),
+                    _ => (0, 1),
+                };
                 match &o.results[c] {
                     // "returned as an error by the very call": any error value qualifies
                     // (the library reports it as Error::IoError carrying the injected error)
                     CallRes::Err(_) => {}
+                    // an interrupted operation may be tried again (std's write_all does so): then it is no failure,
+                    // provided the run cannot be told from the undisturbed one: every call succeeds, the files are
+                    // the same, and what a successful finalize wrote has been flushed
+                    CallRes::Ok if kind == 1 => {
+                        let all_ok = o.results.iter().all(|r| *r == CallRes::Ok);
+                        let flushed = case.ops.iter().zip(&o.unflushed_after).all(|(op, u)| *op != WOp::F || *u == (0, 0)) && o.unflushed_end == (0, 0);
+                        if !all_ok || !flushed || o.final_shp != base.shp || o.final_shx != base.shx {
+                            out.push((
+                                format!("interrupted-operation-neither-reported-nor-completed:{}:{}", opn, dn),
+                                format!(
+                                    "operation {} on .{} was answered ErrorKind::Interrupted {} time(s) during call {} ({}), which returned Ok; all calls ok: {}, everything a successful finalize wrote flushed: {} (unflushed at the end {:?}), files as undisturbed: {}",
+                                    k, dn, burst, c, opn, all_ok, flushed, o.unflushed_end, o.final_shp == base.shp && o.final_shx == base.shx
+                                ),
+                            ));
+                        }
+                    }
                     other => out.push((
                         format!("failure-not-reported:{}:{}", opn, dn),
-                        format!("operation {} on .{} failed during call {} ({}), which returned {:?}", k, dn, c, opn, other),
+                        format!("operation {} on .{} failed ({}) during call {} ({}), which returned {:?}", k, dn, KINDS[kind as usize].0, c, opn, other),
                     )),
                 }
                 // the failed finalize is not retried at once: the history goes on, and a later
                 // finalize (at the latest the one drop performs) completes the files
                 if let Plan::Fault { persistent: false, .. } = &case.plan {
                     if case.ops[c] == WOp::F {
-                        let later_ok = o.results.iter().enumerate().all(|(i, r)| i == c || *r == CallRes::Ok);
+                        // (a fault that fired during drop cannot be reported and leaves the files incomplete)
+                        let later_ok = o.results.iter().enumerate().all(|(i, r)| i == c || *r == CallRes::Ok) && o.fired.iter().all(|(fc, _)| (*fc as usize) < n);
                         if later_ok && (o.final_shp != base.shp || o.final_shx != base.shx) {
                             out.push((
                                 format!("files-differ-after-later-finalize:{}", dn),
@@ -259,6 +389,36 @@ pub fn judge(case: &Case, base: &Baseline, o: &Obs) -> Vec<(String, String)> {
                             format!("after retrying the failed finalize the files differ from the undisturbed run (.shp {} vs {} bytes, .shx {} vs {} bytes)", shp2.len(), base.shp.len(), shx2.len(), base.shx.len()),
                         ));
                     }
+                }
+            }
+        }
+        Plan::Pair { dev1, k1, dev2, k2 } => {
+            let what = format!("operation {} on .{} and operation {} on .{} fail once", k1, ["shp", "shx"][*dev1 as usize], k2, ["shp", "shx"][*dev2 as usize]);
+            for (c, _) in &o.fired {
+                let c = *c as usize;
+                if c < n && !matches!(o.results[c], CallRes::Err(_) | CallRes::Panic(_)) {
+                    out.push((format!("two-faults:failure-not-reported:{}", if case.ops[c] == WOp::F { "finalize" } else { "write_shape" }), format!("{}; a fault fired during call {}, which returned {:?}", what, c, o.results[c])));
+                }
+            }
+            for (i, r) in o.results.iter().enumerate().take(n) {
+                if matches!(r, CallRes::Err(_)) && !o.fired.iter().any(|(c, _)| *c as usize == i) {
+                    out.push(("two-faults:call-failed-without-a-fault".into(), format!("{}; call {} returned {:?} although no operation failed during it", what, i, r)));
+                }
+            }
+            if let Some((shp, shx)) = &o.pair_expect {
+                // a failed write may have left bytes behind the end: a Write + Seek destination cannot be truncated,
+                // so the files are judged up to the length their headers declare
+                let decl = |b: &[u8]| b.get(24..28).map(|x| i32::from_be_bytes(x.try_into().unwrap()) as i64 * 2).filter(|l| *l >= 100 && *l as usize <= b.len()).map(|l| l as usize).unwrap_or(b.len());
+                let (fs, fx) = (&o.final_shp[..decl(&o.final_shp)], &o.final_shx[..decl(&o.final_shx)]);
+                if out.is_empty() && (fs != &shp[..] || fx != &shx[..]) {
+                    let failed: Vec<String> = o.fired.iter().map(|(c, _)| format!("call {} ({:?})", c, case.ops[*c as usize])).collect();
+                    out.push((
+                        "two-faults:files-differ-from-undisturbed-run".into(),
+                        format!(
+                            "{}; they fired in {:?}; every other call succeeded and drop finalized, yet the files (up to their declared length) differ from the undisturbed run of the history without the failed writes (.shp {} vs {} bytes, .shx {} vs {} bytes)",
+                            what, failed, o.final_shp.len(), shp.len(), o.final_shx.len(), shx.len()
+                        ),
+                    ));
                 }
             }
         }
@@ -297,7 +457,10 @@ pub fn histories(maxlen: usize) -> Vec<Vec<WOp>> {
 
 const UNIFORM: [u64; 11] = [1, 2, 3, 4, 5, 7, 8, 9, 15, 16, 17];
 
-fn run_workload(ty: Ty, with_shx: bool, ops: &[WOp], chunks: &[u64], ctx: &mut Ctx, tick: &dyn Fn()) {
+/// (kind, burst) beyond the plain one-shot ErrorKind::Other
+const KIND_BURSTS: [(u8, u8); 7] = [(1, 1), (1, 2), (1, 3), (1, 4), (2, 1), (2, 2), (3, 1)];
+
+fn run_workload(ty: Ty, with_shx: bool, ops: &[WOp], chunks: &[u64], extra_maxlen: usize, ctx: &mut Ctx, tick: &dyn Fn()) {
     let pal = Palette::new(ty, None);
     let base = baseline(&pal, with_shx, ops);
     if base.results.iter().any(|r| *r != CallRes::Ok) {
@@ -311,10 +474,37 @@ fn run_workload(ty: Ty, with_shx: bool, ops: &[WOp], chunks: &[u64], ctx: &mut C
         }
         for k in 0..log.len() as u64 {
             for persistent in [false, true] {
-                plans.push(Plan::Fault { dev, k, persistent, chunk: 0 });
+                plans.push(Plan::Fault { dev, k, persistent, chunk: 0, kind: 0, burst: 1, prefill: false });
+            }
+            if ops.len() <= extra_maxlen {
+                // other error kinds, the same operation failing several times in a row, destinations holding stale content
+                for (kind, burst) in KIND_BURSTS {
+                    plans.push(Plan::Fault { dev, k, persistent: false, chunk: 0, kind, burst, prefill: false });
+                }
+                plans.push(Plan::Fault { dev, k, persistent: false, chunk: 0, kind: 0, burst: 1, prefill: true });
             }
         }
     }
+    // two one-shot faults anywhere (every unordered pair of operations, a few beyond the fault-free log: a failed
+    // call changes what follows)
+    if ops.len() <= extra_maxlen {
+        let l0 = base.shp_log.len() as u64 + 6;
+        let l1 = if with_shx { base.shx_log.len() as u64 + 6 } else { 0 };
+        for k1 in 0..l0 {
+            for k2 in k1 + 1..l0 {
+                plans.push(Plan::Pair { dev1: 0, k1, dev2: 0, k2 });
+            }
+            for k2 in 0..l1 {
+                plans.push(Plan::Pair { dev1: 0, k1, dev2: 1, k2 });
+            }
+        }
+        for k1 in 0..l1 {
+            for k2 in k1 + 1..l1 {
+                plans.push(Plan::Pair { dev1: 1, k1, dev2: 1, k2 });
+            }
+        }
+    }
+    let base_prefill = baseline_full(&pal, with_shx, ops, 0, true);
     // a second fault during the retry of a failed finalize: every (k1 in a finalize, k2 in a window behind it) on every device pair
     let devs: Vec<u8> = if with_shx { vec![0, 1] } else { vec![0] };
     for &d1 in &devs {
@@ -345,7 +535,7 @@ fn run_workload(ty: Ty, with_shx: bool, ops: &[WOp], chunks: &[u64], ctx: &mut C
                 continue;
             }
             for k in 0..log.len() as u64 {
-                plans.push(Plan::Fault { dev, k, persistent: false, chunk: *c });
+                plans.push(Plan::Fault { dev, k, persistent: false, chunk: *c, kind: 0, burst: 1, prefill: false });
             }
         }
     }
@@ -366,12 +556,17 @@ fn run_workload(ty: Ty, with_shx: bool, ops: &[WOp], chunks: &[u64], ctx: &mut C
         h.str(&case.to_json().to_string());
         let b: &Baseline = match &case.plan {
             Plan::Fault { chunk, .. } if *chunk > 0 => &chunked.iter().find(|(c, _)| c == chunk).unwrap().1,
+            Plan::Fault { prefill: true, .. } => &base_prefill,
             _ => &base,
         };
         match catch(|| observe(&pal, &case, b)) {
             Ok(o) => {
                 // a double fault whose second fault did not land in the retry is not a case
                 if matches!(case.plan, Plan::Fault2 { .. }) && o.retry.is_none() {
+                    continue;
+                }
+                // a pair of which only one fault fired is a single-fault case, already covered
+                if matches!(case.plan, Plan::Pair { .. }) && o.faults_fired < 2 {
                     continue;
                 }
                 ctx.lib_calls += ops.len() as u64 + 2;
@@ -404,7 +599,7 @@ fn selftest() -> (u64, u64) {
     let base = baseline(&pal, true, &ops);
     // the finalize's first .shp operation
     let k = base.shp_log.iter().position(|o| o.call() == 1).unwrap() as u64;
-    let case = Case { ty, with_shx: true, ops: ops.clone(), plan: Plan::Fault { dev: 0, k, persistent: false, chunk: 0 } };
+    let case = Case { ty, with_shx: true, ops: ops.clone(), plan: Plan::Fault { dev: 0, k, persistent: false, chunk: 0, kind: 0, burst: 1, prefill: false } };
     if !judge(&case, &base, &observe(&pal, &case, &base)).is_empty() {
         return (1, 0);
     }
@@ -453,10 +648,11 @@ pub fn check(tier: Tier) -> i32 {
         }
     }
     let chunks: Vec<u64> = tier.pick(vec![1, 7], vec![1, 3, 7, 16]);
+    let extra_maxlen = tier.pick(3, 4);
     let deadline = Some(started + std::time::Duration::from_secs(tier.pick(50, 1700)));
     let (agg, capped) = par_blocks(units.len(), deadline, |b, ctx, tick| {
         let (ty, with_shx, ops) = &units[b];
-        run_workload(*ty, *with_shx, ops, &chunks, ctx, tick);
+        run_workload(*ty, *with_shx, ops, &chunks, extra_maxlen, ctx, tick);
     });
     // large shapes under short writes of every magnitude (block-wise emission must not lose bytes)
     let mut big = Ctx::new();
@@ -514,11 +710,12 @@ pub fn check(tier: Tier) -> i32 {
             tier,
             level: "fault_enumeration",
             engine: "writer histories on the real ShapeWriter over fault-injecting / short-writing devices; one execution per (workload, fault point or chunking schedule)",
-            rule: "workloads = every history over {Wa, Wb, F} up to the length bound x {with, without .shx} x types, ending in drop; fault points = every operation index k (write, seek or flush, counted on the fault-free log of this tree) on each device x {one-shot, persistent}; a one-shot fault inside a finalize is followed by the same history with that finalize retried; a second one-shot fault at every operation of that retry (same or other device) followed by a third call; every fault point again under uniform short writes (chunk 1 and 7; thorough 1, 3, 7, 16); a one-shot fault inside a finalize that is NOT retried at once: the history goes on and the files after drop equal the undisturbed run; chunking = uniform c in {1,2,3,4,5,7,8,9,15,16,17} (and 7..2^20 on shapes of 8193..70001 points) and, for every write call j, 'call j moves 1 byte' and 'call j moves len-1 bytes'; every case is non-trivial",
-            bounds: json!({"max_history": tier.pick(4, 6), "types": types.iter().map(|t| t.name()).collect::<Vec<_>>(), "uniform_chunks": UNIFORM}),
+            rule: "workloads = every history over {Wa, Wb, F} up to the length bound x {with, without .shx} x types, ending in drop; fault points = every operation index k (write, seek or flush, counted on the fault-free log of this tree) on each device x {one-shot, persistent}; a one-shot fault inside a finalize is followed by the same history with that finalize retried; a second one-shot fault at every operation of that retry (same or other device) followed by a third call; every fault point again under uniform short writes (chunk 1 and 7; thorough 1, 3, 7, 16); a one-shot fault inside a finalize that is NOT retried at once: the history goes on and the files after drop equal the undisturbed run; for histories up to the extra bound: every fault point again with ErrorKind Interrupted (the operation failing 1..4 times in a row), WouldBlock (1..2 times) and TimedOut (an interrupted operation may be tried again, then the run must be indistinguishable from the undisturbed one incl. flushed state; every other kind must be reported), every fault point again on destinations that already hold longer stale content, and every unordered pair of one-shot faults anywhere in the history (files, up to their declared length, equal the undisturbed run of the history without the failed writes); chunking = uniform c in {1,2,3,4,5,7,8,9,15,16,17} (and 7..2^20 on shapes of 8193..70001 points) and, for every write call j, 'call j moves 1 byte' and 'call j moves len-1 bytes'; every case is non-trivial",
+            bounds: json!({"max_history": tier.pick(4, 6), "max_history_kinds_pairs_stale": tier.pick(3, 4), "types": types.iter().map(|t| t.name()).collect::<Vec<_>>(), "uniform_chunks": UNIFORM}),
             exhaustive: true,
             assumptions: vec![
-                "injected errors are ErrorKind::Other (Interrupted is retried by write_all and is not a failure in the sense of the statement)".into(),
+                "an operation answered ErrorKind::Interrupted that is tried again and then succeeds (std's write_all does that) is not a failure in the sense of the statement".into(),
+                "after a failed write_shape the files are compared up to the length their headers declare (a Write + Seek destination cannot be truncated)".into(),
                 "faults that land inside drop only require 'no panic'; chunking schedules are the stated family, not all sequences of chunk sizes".into(),
             ],
             started,
@@ -537,11 +734,11 @@ pub fn replay(v: &Value) -> Vec<(String, String)> {
         None => vec![("bad-replay-file".into(), "cannot parse case".into())],
         Some(case) => {
             let pal = Palette::new(case.ty, None);
-            let chunk = match &case.plan {
-                Plan::Fault { chunk, .. } => *chunk,
-                _ => 0,
+            let (chunk, prefill) = match &case.plan {
+                Plan::Fault { chunk, prefill, .. } => (*chunk, *prefill),
+                _ => (0, false),
             };
-            let base = baseline_chunked(&pal, case.with_shx, &case.ops, chunk);
+            let base = baseline_full(&pal, case.with_shx, &case.ops, chunk, prefill);
             match catch(|| observe(&pal, &case, &base)) {
                 Ok(o) => judge(&case, &base, &o).into_iter().map(|(s, d)| (format!("{}:{}", case.ty.name(), s), d)).collect(),
                 Err(p) => vec![(format!("{}:harness-or-drop-panic:{}", case.ty.name(), p.sig()), p.msg)],
